@@ -57,6 +57,11 @@ type UConn struct {
 
 	// echCtx is the echContex returned by makeClientHello()
 	echCtx *echClientContext
+
+	// presetApplied is set once buildHandshakeState has applied the preset of
+	// ClientHelloID, so that BuildHandshakeStateWithoutSession followed by
+	// BuildHandshakeState does not apply it (and regenerate key material) twice.
+	presetApplied bool
 }
 
 // UClient returns a new uTLS client, with behavior depending on clientHelloID.
@@ -125,13 +130,22 @@ func (uconn *UConn) buildHandshakeState(loadSession bool) error {
 		uconn.clientHelloBuildStatus = BuildByGoTLS
 	} else {
 		uAssert(uconn.clientHelloBuildStatus == BuildByUtls || uconn.clientHelloBuildStatus == NotBuilt, "BuildHandshakeState failed: invalid call, client hello has already been built by go-tls")
-		if uconn.clientHelloBuildStatus == NotBuilt {
+		if uconn.clientHelloBuildStatus == NotBuilt && !uconn.presetApplied {
 			err := uconn.applyPresetByID(uconn.ClientHelloID)
 			if err != nil {
 				return err
 			}
 			if uconn.omitSNIExtension {
 				uconn.removeSNIExtension()
+			}
+			uconn.presetApplied = true
+		} else if uconn.clientHelloBuildStatus == NotBuilt {
+			// The preset was applied by an earlier BuildHandshakeStateWithoutSession.
+			// Applying it again would drop the private keys of the key shares already
+			// placed in the extensions; only pick up a session extension the caller
+			// has provided since.
+			if err := uconn.sessionController.syncSessionExts(); err != nil {
+				return err
 			}
 		}
 
